@@ -52,9 +52,8 @@ record iff no still-registered service uses the host name (contents: `C08_goodby
 * `hm*` exclude `_close` before the third goodbye — `C08:goodbyes-cut-by-close` (`async_close` does not wait for a goodbye task that the
   application did not await; `done` makes `async_send` a no-op);
 * the run is a run of the *machine*, in which an object is never mutated under its tasks; the library itself does that when the same
-  `ServiceInfo` is handed to `async_register_service` again at once — `C08:reused-info-renamed-before-goodbye` (D27): the full statement
-  over the extended machine `Host.xrun` is `C08_goodbyes_run`: refuted for today's code (`…_refuted_without_snapshot`), proved for the
-  code that builds the goodbye packet at call time (`C08_goodbyes_run_snapshot`).
+  `ServiceInfo` is handed to `async_register_service` again at once — `C08:reused-info-renamed-before-goodbye` (D27, repaired): over the extended machine `Host.xrun` the full statement is
+  `C08_goodbyes_run_full` (refuted for the code before the repair: `…_refuted_without_snapshot`).
 That the three steps *are* executed at their due instants is the loop axiom (DESIGN §4), checked on every replayed trace. -/
 theorem C08_goodbyes_run_partial (h0 : Host) (hnd : h0.done = false) (s : Svc) (oid : Nat) (now : Int)
     (hfresh : h0.tasks.filter (isBye oid) = []) (mid0 mid1 mid2 : List Block)
@@ -95,6 +94,13 @@ theorem C08_goodbyes_run_snapshot : C08_goodbyes_run lower true := by
   simp only [List.filter_append, List.length_append, List.filter_cons, goodbye_names_service, goodbyePkt, if_true, List.filter_nil,
     List.length_cons, List.length_nil]
   omega
+
+/-- **Goodbyes in every run of the tree's own extended machine** (`Host.mutate` = what the checked tree does to a re-used object): with the
+D27 repair in the tree (`GenFacts.Goodbye.unregister_builds_goodbye`) the full statement holds — whatever is mutated, registered, queued or
+answered between the steps, short of a `_close`, three datagrams withdrawing `s.name` leave. -/
+theorem C08_goodbyes_run_full : C08_goodbyes_run lower Gen.Register.unregister_builds_goodbye_at_call := by
+  rw [unregister_builds_goodbye]
+  exact C08_goodbyes_run_snapshot lower
 
 /-- the same at close / `async_unregister_all_services`: one datagram with the TTL-0 records of every registered
 service (addresses and NSEC always included), sent at `now`, and twice more by the sequence it starts, 125 ms apart;
@@ -494,7 +500,7 @@ private def exProg : List XBlock :=
   [.blk (.unregister exSvc 1 1000), .mutate 1 { exSvc with name := "svc-2._http._tcp.local." },
    .blk (.task 1 (some 0) true 1000), .blk (.task 1 (some 0) true 1125), .blk (.task 1 (some 0) true 1250)]
 
-/-- **false of the code without that repair** (known finding D27, `C08:reused-info-renamed-before-goodbye`): the goodbye task reads the
+/-- **false of the code before the D27 repair** (`C08:reused-info-renamed-before-goodbye`, now `kind: fixed`): the goodbye task reads the
 object at each step; `async_unregister_service(info)` followed at once by `async_register_service(info, allow_name_change=True)` with
 the same object renames it (`svc` → `svc-2`: the host's own announcement of `svc` is still in its cache) before the task's first step:
 three goodbyes leave, all naming `svc-2`; `svc` is never withdrawn -/
